@@ -4,11 +4,15 @@
 def setup(register, COMMON_TB):
     register(
         "C02", coq="C02", coq_extra=["k8s", "ngx"], pkg="./internal/mode/static/", test="TestVerifC02",
+        extra=[dict(pkg="./internal/mode/static/state/graph/", test="TestVerifC02Hosts")],
         rule="generated cluster states (gateway classes own/foreign, 1-2 gateways, HTTP/HTTPS listeners with hostnames, allowedRoutes, "
              "certificate refs, HTTPRoutes/GRPCRoutes with matches, filters, weighted backends, services, secrets, grants, namespaces), each "
              "run through the real handler/graph/configuration/generator; 40 (quick) or 100 (thorough) requests per state over the mentioned "
              "hosts/paths/methods/headers/params and near misses; non-trivial = at least 2 routes and a generated http.conf over 2 kB; "
-             "distinct = distinct cluster states",
+             "distinct = distinct cluster states"
+             " Second part (TestVerifC02Hosts, evaluated by k8s/HostCheck.v): the real findAcceptedHostnames on every pair of a pool of 15 hostnames (exact names, "
+             "wildcards of several depths, look-alikes) and on random lists: equal to Spec.accepted_hostnames, and on 15 probe hosts some returned name serves the host "
+             "exactly when the listener hostname and a route hostname admit it",
         trusted_base=COMMON_TB + [
             "ngx/Lexer.v + ngx/Eval.v: NGINX tokenizer, server_name/location selection, rewrite-phase and split_clients semantics written from the NGINX documentation (no NGINX binary in the sandbox)",
             "Njs part of ngx/Eval.v: transcription of httpmatches.js",
